@@ -319,3 +319,37 @@ PROPS['C07'] = dict(
     technique=T_CB + ' (harness-enforced), bounded complete unwinding, bit-precise floats',
     explanation=EXPL_COMMON + 'C07 is only partially decided: see level_note.',
     assumptions=['Hirschberg composition is a meta-argument'])
+
+# =========================================================================== C03 comparators
+Q(id='C03.sort_by_len_name', props=['C03'], cls='P', harness='c03_comparators.c', entry='h_c03_len_name',
+  mode='wrap', unwind=10, timeout=600, funcs=['sort_by_len_name'],
+  srcs=['lib/src/tlrng.c'], native_srcs=['lib/src/tldevel.c', 'lib/src/tlrng.c'],
+  trusted=[TRUST_MSG, 'strncmp: CBMC library model'],
+  assumptions=[A_WRAP, 'names: all NUL-terminated strings of up to 5 bytes (full byte domain); len/rank/alloc_len: full int domain'])
+Q(id='C03.sort_by_rank', props=['C03', 'C01'], cls='P', harness='c03_comparators.c', entry='h_c03_rank', defs=['-DKV_ENTRY_RANK'],
+  mode='wrap', unwind=10, timeout=600, funcs=['sort_by_rank'],
+  srcs=['lib/src/tlrng.c'], native_srcs=['lib/src/tldevel.c', 'lib/src/tlrng.c'],
+  trusted=[TRUST_MSG], assumptions=[A_WRAP])
+Q(id='C03.sort_by_len_name.longnames', props=['C03'], cls='B', tier='thorough', harness='c03_comparators.c', entry='h_c03_len_name', defs=['-DKV_LONGNAMES', '-DKV_NAMELEN=2'],
+  mode='wrap', unwind=262, timeout=900, funcs=['sort_by_len_name'],
+  srcs=['lib/src/tlrng.c'], native_srcs=['lib/src/tldevel.c', 'lib/src/tlrng.c'],
+  trusted=[TRUST_MSG, 'strncmp: CBMC library model'],
+  assumptions=[A_WRAP, 'names share a concrete 256-byte prefix and differ in a symbolic tail of up to 2 bytes'])
+PROPS['C03'] = dict(
+    level='other',
+    level_text=('the canonical order is total and input-order free: sort_by_len_name is proved antisymmetric and equal to (length descending, name ascending) for all lengths and all short names; '
+                'sort_by_rank restores the caller order (proved); static facts: rank is read only by sort_by_rank, no random numbers are drawn by library code reachable from kalign_run; '
+                'kalign_run protocol (B) shows rows come back in input order'),
+    level_note=('relational two-run statement (permuted input => permuted output) is a meta-argument: a deterministic function of the canonical order composed with sort-by-rank; qsort trusted; '
+                'names longer than 256 bytes are compared on their first 256 bytes only (see known findings)'),
+    technique=T_CB + ' (harness-enforced, loop-free / bounded names), static facts',
+    explanation=EXPL_COMMON,
+    assumptions=['permutation-equivariance by composition is not machine-checked'])
+PROPS['C11'] = dict(
+    level='other',
+    level_text=('bpm() (single 64-bit word, patterns 1..63) is proved equal to the Sellers column recurrence for ANY text length by a loop contract that ties the bit-vectors VP/VN, diff and k to a ghost DP column; '
+                'bpm_block (production path) is checked bounded against the same recurrence'),
+    level_note='bpm_256 (AVX2 intrinsics) is not verified; bpm_block only bounded in this round; text symbols < 13 assumed at the read site (data invariant from convert_msa_to_internal)',
+    technique=T_CB + ' via goto-instrument --dfcc, loop contract over ghost state (DP column), constant-bound quantifier expanded by SAT (cadical)',
+    explanation=EXPL_COMMON,
+    assumptions=['Sellers recurrence taken as the definition of the minimum edit distance over all substrings'])
